@@ -417,6 +417,11 @@ def history(ctx: Any) -> List[Ob]:
     store_shape = _key_shape(st_h[0].targets[0].slice, rec_f.params[1]) if len(st_h) == 1 else None
     look_shapes = {_key_shape(c.args[0], h.params[1]) for c in ast.walk(h.node) if isinstance(c, ast.Call) and isinstance(c.func, ast.Attribute) and c.func.attr == 'get' and self_attr(c.func.value, hme) == '_history' and c.args} | {_key_shape(c.slice, h.params[1]) for c in ast.walk(h.node) if isinstance(c, ast.Subscript) and self_attr(c.value, hme) == '_history'}
     ok_rec = len(st_h) == 1 and store_shape is not None and look_shapes == {store_shape} and isinstance(st_h[0].value, ast.Tuple) and [norm(x) for x in st_h[0].value.elts] == [rec_f.params[2], rec_f.params[3]]
+    # (what is stored is what was handed in: the time and the list of THIS sighting -- a list merged with an earlier sighting's
+    # hides a later, shorter list that would have suppressed the question)
+    rebinds = [st for st in walk_local_ordered(rec_f.node) if isinstance(st, (ast.Assign, ast.AugAssign, ast.AnnAssign)) and any(isinstance(t, ast.Name) and t.id in rec_f.params[2:4] for t in (st.targets if isinstance(st, ast.Assign) else [st.target]))]
+    inplace = [c for c in walk_local_ordered(rec_f.node) if isinstance(c, ast.Call) and isinstance(c.func, ast.Attribute) and isinstance(c.func.value, ast.Name) and c.func.value.id == rec_f.params[3] and c.func.attr in ('update', 'add', 'discard', 'remove', 'clear', 'difference_update', 'intersection_update')]
+    ok_rec = ok_rec and not rebinds and not inplace
     rcfg_h = cfg_of(rec_f.node)
     st_nodes = [n for n in rcfg_h.nodes if n.kind == 'stmt' and any(n.ast is x for x in st_h)]
     skip_h = rcfg_h.path_avoiding(rcfg_h.entry, lambda n: n is rcfg_h.exit, lambda n: n in st_nodes) if st_nodes else [rcfg_h.entry]
